@@ -125,6 +125,11 @@ impl Compiler {
     /// Leave a local scope used while compiling a function body.
     pub fn leave_scope(&mut self) -> Instructions {
         let instructions = self.get_curr_instructions();
+        #[cfg(p2sh_verif)]
+        crate::verif::on_emit(&crate::verif::EmitEvent::ScopeDone {
+            scope: self.scope_index,
+            code: &instructions.code,
+        });
         self.scopes.truncate(self.scopes.len() - 1);
         self.scope_index -= 1;
         let outer = self.symtab.outer.as_ref().unwrap().as_ref().clone();
@@ -138,6 +143,11 @@ impl Compiler {
 
     pub fn bytecode(&self) -> Bytecode {
         let instructions = self.get_curr_instructions();
+        #[cfg(p2sh_verif)]
+        crate::verif::on_emit(&crate::verif::EmitEvent::ScopeDone {
+            scope: self.scope_index,
+            code: &instructions.code,
+        });
         let constants = self.constants.clone();
         let filters = self.filters.clone();
         let filter_end = self.filter_end.clone();
@@ -220,6 +230,13 @@ impl Compiler {
     pub fn emit(&mut self, op: Opcode, operands: &[usize], line: usize) -> usize {
         let ins = definitions::make(op, operands, line);
         let pos = self.add_instruction(ins);
+        #[cfg(p2sh_verif)]
+        crate::verif::on_emit(&crate::verif::EmitEvent::Emit {
+            scope: self.scope_index,
+            pos,
+            op: op.into(),
+            operands,
+        });
         self.set_last_instruction(op, pos);
         pos
     }
@@ -278,6 +295,11 @@ impl Compiler {
 
         self.scopes[self.scope_index].instructions = new_ins;
         self.scopes[self.scope_index].last_ins = prev_ins;
+        #[cfg(p2sh_verif)]
+        crate::verif::on_emit(&crate::verif::EmitEvent::Truncate {
+            scope: self.scope_index,
+            len: last_ins.position,
+        });
     }
 
     // Helper to replace an instruction at an arbitrary offset
@@ -297,6 +319,12 @@ impl Compiler {
         let new_instruction = definitions::make(Opcode::ReturnValue, &[0], 1);
         self.replace_instruction(last_pos, &new_instruction.code);
         self.scopes[self.scope_index].last_ins.opcode = Opcode::ReturnValue;
+        #[cfg(p2sh_verif)]
+        crate::verif::on_emit(&crate::verif::EmitEvent::Replace {
+            scope: self.scope_index,
+            pos: last_pos,
+            op: Opcode::ReturnValue.into(),
+        });
     }
 
     // Recreate instruction with new operand and use 'replace_instruction()'
@@ -309,6 +337,12 @@ impl Compiler {
         let new_instruction = definitions::make(op, &[operand], line);
         // lines remain the same
         self.replace_instruction(op_pos, &new_instruction.code);
+        #[cfg(p2sh_verif)]
+        crate::verif::on_emit(&crate::verif::EmitEvent::Patch {
+            scope: self.scope_index,
+            pos: op_pos,
+            operand,
+        });
     }
 
     fn patch_jump(&mut self, pos: usize) {
@@ -340,6 +374,10 @@ impl Compiler {
     fn compile_statements(&mut self, statements: Vec<Statement>) -> Result<(), CompileError> {
         for stmt in statements {
             self.compile_statement(stmt)?;
+            #[cfg(p2sh_verif)]
+            crate::verif::on_emit(&crate::verif::EmitEvent::TopLevelStmt {
+                pos: self.scopes[self.scope_index].instructions.len(),
+            });
         }
         Ok(())
     }
